@@ -478,6 +478,7 @@ func (x *rh) Observe() *seqmc.Fail {
 func main() {
 	ev.GuardFor("C06")
 	r := ev.Start("C06")
+	defer r.FinishOnPanic()
 	r.SetDeadline(ev.Pick(r, 60*time.Second, 1500*time.Second))
 	H := ev.Pick(r, 3, 4)
 	N := ev.Pick(r, 5, 6)
